@@ -837,15 +837,28 @@ public:
     // _accepting = true) so that drain can be retried. stop() does not retry:
     // close the gate again before the run loop exits, otherwise a timer
     // scheduled from here on is accepted but never fires.
-    {
-      std::lock_guard<std::mutex> lock(_mutex);
-      _accepting.store(false, std::memory_order_release);
-    }
+    // The _running CAS is made under _mutex as well, so that a concurrent
+    // stop() that loses it sees the winner's _joining.
+    std::unique_lock<std::mutex> stopLock(_mutex);
+    _accepting.store(false, std::memory_order_release);
 
     // Now transition to Stopped
     bool expected = true;
     if (_running.compare_exchange_strong(expected, false, std::memory_order_acq_rel))
     {
+      _joining = _thread.get_id();
+      stopLock.unlock();
+      // Cleared on every exit (join() may throw) so that waiters are released.
+      struct JoinDone
+      {
+        TimerService &s;
+        ~JoinDone()
+        {
+          std::lock_guard<std::mutex> g(s._mutex);
+          s._joining = std::thread::id();
+          s._drainCV.notify_all();
+        }
+      } joinDone{*this};
       loggerSnapshot()->info("Stopping timer service");
       poke();
 
@@ -867,6 +880,16 @@ public:
 
       return LifecycleResult(true, LifecycleState::Stopped, "Timer service stopped");
     }
+
+    // Lost the CAS. If another thread's stop() is still joining the run loop (a
+    // handler may still be running), wait for it, so that no handler runs after
+    // this call returns. A call made from a handler on that run loop must not
+    // wait for its own exit.
+    if (std::this_thread::get_id() != _joining)
+    {
+      _drainCV.wait(stopLock, [this]() { return _joining == std::thread::id(); });
+    }
+    stopLock.unlock();
 
     // Already stopped
     _lifecycleState.store(LifecycleState::Stopped, std::memory_order_release);
@@ -1563,6 +1586,7 @@ private:
   // Threading and fds
   std::atomic<bool> _running{false};
   std::thread _thread;
+  std::thread::id _joining;      // run loop a stop() call is joining; guarded by _mutex
   int _epollFd{-1};              // only accessed from init/runLoop/cleanup (single thread)
   int _timerFd{-1};              // only accessed from init/runLoop/cleanup (single thread)
   std::atomic<int> _eventFd{-1}; // accessed cross-thread by poke()
